@@ -319,6 +319,18 @@ pub fn check_case(c: &Case, st: &mut Stats) -> Option<(String, String)> {
             }
         }
     }
+    // the merged segment's token total agrees with its documents (field norms are exact below 40 tokens)
+    for (fname, fd) in &md.fields {
+        if let Some(norms) = &fd.fieldnorms {
+            if !norms.is_empty() && norms.iter().all(|n| *n < 40) && fd.record.is_some() {
+                let sum: u64 = norms.iter().map(|n| *n as u64).sum();
+                st.count("merged_token_totals");
+                if fd.total_num_tokens != sum {
+                    return Some(("merged_total_num_tokens_differs".into(), format!("field {fname}: the merged segment reports {} tokens in total, its documents hold {sum}", fd.total_num_tokens)));
+                }
+            }
+        }
+    }
     let got = records_of(md);
     if got != want {
         return Some(("merged_content_differs".into(), first_difference(&got, &want)));
